@@ -39,7 +39,7 @@ struct PolyDom : CellSpace<PolyDom> {
   // but rather to their internal representations": with strict constraints in play the result may depend on the epsilon
   // representation.  Such cases are counted, not reported (unless --caveat-as-violation).
   static bool has_strict(const Cell& c) { if (c.bot) return false; for (size_t i = 0; i < c.rows.size(); ++i) if (c.rows[i].k == ref::GT) return true; return false; }
-  std::string repdep_caveat(const std::string&, const Cell& older, const Cell& newer, const std::string&, const std::string&) const {
+  std::string repdep_caveat(const std::string&, const Cell& older, const Cell& newer, const std::string&, const std::string&, const std::string&) const {
     if (nnc && (has_strict(older) || has_strict(newer))) return "nnc_argument_with_strict_constraint";
     return "";
   }
